@@ -204,6 +204,11 @@ func execCall(h *hCall, root *gtree.Node, jail string, idx int, yield bool, rw *
 		}
 	}
 	ctx := context.Background()
+	if h.Op.PreCancelled {
+		c2, cancel := context.WithCancel(ctx)
+		cancel()
+		ctx = c2
+	}
 	opts := opOptions(h.Op, ctx, target)
 	extsGiven := lastExtsGiven
 	if h.Reenter {
@@ -437,7 +442,7 @@ func genFromRootOp(c *Ctx, allowMassive bool) Op {
 	switch c.Pick(6, 2, 1, 1, 2, 3, 3, 2, 2, 2) {
 	case 0:
 		op.Kind = "output"
-		op.Branch = branchSets[c.Pick(4, 1, 1, 1, 1, 1, 1)]
+		op.Branch = branchSets[c.Pick(4, 1, 1, 1, 1, 1, 1, 1, 1)]
 		if op.Branch != nil && c.Chance(1, 5) {
 			op.BranchOnly = []string{"last", "mid"}[c.Draw(2)]
 		}
@@ -452,7 +457,7 @@ func genFromRootOp(c *Ctx, allowMassive bool) Op {
 		op.Exts = extSets[c.Draw(len(extSets))]
 	case 5:
 		op.Kind = "walk"
-		op.Branch = branchSets[c.Pick(4, 1, 1, 1, 1, 1, 1)]
+		op.Branch = branchSets[c.Pick(4, 1, 1, 1, 1, 1, 1, 1, 1)]
 		if op.Branch != nil && c.Chance(1, 5) {
 			op.BranchOnly = []string{"last", "mid"}[c.Draw(2)]
 		}
@@ -476,6 +481,7 @@ func genFromRootOp(c *Ctx, allowMassive bool) Op {
 	}
 	if op.Kind == "walkiter" && c.Chance(1, 5) {
 		op.Massive = true // accepted and ignored by the iterator form
+		op.PreCancelled = c.Chance(1, 2)
 	}
 	if c.Chance(1, 12) {
 		op.NilOption = true
@@ -932,6 +938,11 @@ func caseC03(c *Ctx) {
 	// verify needs the prepared directory also for the Markdown call
 	want = execCallPrep(hm, filepath.Join(jail, "md"), model)
 	simfs.Uninstall()
+	if op.PreCancelled && strings.Contains(got.Err, "context canceled") {
+		// (the iterator form may honour the context by yielding its error; what it may not do is
+		// end early without one)
+		return
+	}
 	if diff := got.diff(want); diff != "" {
 		aspect := diff
 		if j := strings.IndexAny(aspect, " \n"); j > 0 {
